@@ -6,6 +6,7 @@ Everything is a plain enumeration (itertools.product over small alphabets); no s
 from __future__ import annotations
 
 import itertools
+from typing import Any
 from typing import Iterator
 from typing import Optional
 
@@ -263,3 +264,96 @@ def families(kind_sets: list[tuple[str, ...]]) -> list[tuple[str, ...]]:
 
 def all_cycles(kinds: tuple[str, ...], n: int) -> list[tuple[str, ...]]:
     return list(itertools.product(kinds, repeat=n))
+
+
+# ---------------------------------------------------------------------------
+# (iii) regex / lexer blow-up shapes (executed in a forked child under a kernel CPU limit)
+# ---------------------------------------------------------------------------
+# every expression position of the language, `@` is the hole
+POSITIONS: list[tuple[str, str]] = [
+    ("output", "{{ @ }}"),
+    ("output-after-operand", "{{ x @ }}"),
+    ("filter-arg", "{{ x | append: @ }}"),
+    ("filter-2nd-arg", "{{ x | replace: 'a', @ }}"),
+    ("filter-kwarg", "{{ x | default: y, allow_false: @ }}"),
+    ("filter-name", "{{ x | @ }}"),
+    ("assign", "{% assign v = @ %}"),
+    ("assign-filter-arg", "{% assign v = x | append: @ | upcase %}"),
+    ("echo", "{% echo @ %}"),
+    ("if", "{% if @ %}a{% endif %}"),
+    ("if-rhs", "{% if x == @ %}a{% endif %}"),
+    ("if-and", "{% if x and y == @ or z %}a{% endif %}"),
+    ("elsif", "{% if x %}a{% elsif x == @ %}b{% endif %}"),
+    ("unless", "{% unless x == @ %}a{% endunless %}"),
+    ("case", "{% case @ %}{% when 1 %}a{% endcase %}"),
+    ("when", "{% case x %}{% when 1, @ %}a{% endcase %}"),
+    ("for-iterable", "{% for i in @ %}a{% endfor %}"),
+    ("for-arg", "{% for i in a limit: @ %}a{% endfor %}"),
+    ("for-range", "{% for i in (1..@) %}a{% endfor %}"),
+    ("tablerow-arg", "{% tablerow i in a cols: @ %}a{% endtablerow %}"),
+    ("cycle", "{% cycle @, 1 %}"),
+    ("capture-name", "{% capture @ %}a{% endcapture %}"),
+    ("increment", "{% increment @ %}"),
+    ("include-name", "{% include @ %}"),
+    ("include-with", "{% include 'p' with @ as v %}"),
+    ("include-arg", "{% include 'p', k: @ %}"),
+    ("render-name", "{% render @ %}"),
+    ("render-for", "{% render 'p' for @ as v %}"),
+    ("render-arg", "{% render 'p', k: @, j: 1 %}"),
+    ("liquid-line", "{% liquid echo @\nassign z = 1 %}"),
+    ("liquid-if-line", "{% liquid if x == @\necho 1\nendif %}"),
+    ("liquid-last-line", "{% liquid assign z = 1\necho @ %}"),
+    ("with-arg", "{% with k: @ %}a{% endwith %}"),
+    ("macro-default", "{% macro m a: @ %}a{% endmacro %}"),
+    ("call-arg", "{% call m @ %}"),
+    ("extends-name", "{% extends @ %}"),
+    ("block-name", "{% block @ %}a{% endblock %}"),
+    ("translate-arg", "{% translate k: @ %}a{% endtranslate %}"),
+    ("unterminated-tag", "{% if x == @"),
+    ("unterminated-output", "{{ x | append: @"),
+    ("inside-unclosed-block", "{% for p in a %}{{ p.t | default: @ | upcase }}"),
+    ("comment-body", "{% comment %} @ {% endcomment %}"),
+    ("raw-body", "{% raw %} @ {% endraw %}"),
+    ("top-level-text", "@"),
+]
+
+_WORDS = ("hello | append: name | upcase | strip | escape | downcase | default: title, allow_false: true "
+          "| truncate: 20 | split: sep | first")
+_OTHER = {'"': "'", "'": '"'}
+TAIL_LENGTHS = (30, 40, 50, 60)
+TAIL_KINDS = ("words", "letters", "other-quote", "spaces-digits")
+
+
+def quote_tail(quote: str, kind: str, length: int) -> str:
+    """An opening quote that is never closed, followed by ``length`` characters."""
+    if kind == "words":
+        tail = (_WORDS * 2)[:length]
+    elif kind == "letters":
+        tail = ("abcdefghij" * 10)[:length]
+    elif kind == "other-quote":
+        tail = (("it" + _OTHER[quote] + "s a long tail ") * 10)[:length]
+    else:
+        tail = ("12 34.5 " * 10)[:length]
+    return quote + tail
+
+
+RUN_FRAGMENTS: list[str] = [
+    "(", ")", "[", "]", "|", ":", ",", " ", "-", "1", ".", "..", "{{", "{%", "}}", "%}", "=", "<", ">", "!",
+    "a", "a.", "a[", "[0]", "a|", "|a:", "'", '"', "''", "not ", "and ", "x or ", "(1..", "\n", "\t", "#", "-%}{%-",
+    "{% if x %}", "{{ x }}",
+]
+RUN_LENGTH = 200
+
+
+def blowup_sources(position: int) -> list[tuple[list[Any], str]]:
+    """(identity, source) for one expression position: every unterminated-quote tail and every
+    run of RUN_LENGTH repetitions of one fragment."""
+    name, tpl = POSITIONS[position]
+    out: list[tuple[list[Any], str]] = []
+    for n in reversed(TAIL_LENGTHS):  # longest tails first: a blow-up is then decided by the first source
+        for q in ('"', "'"):
+            for kind in TAIL_KINDS:
+                out.append(([name, "quote", q, kind, n], tpl.replace("@", quote_tail(q, kind, n))))
+    for frag in RUN_FRAGMENTS:
+        out.append(([name, "run", frag, RUN_LENGTH], tpl.replace("@", frag * RUN_LENGTH)))
+    return out
